@@ -264,8 +264,87 @@ def wire_request(tree, mode):
     return proto.line(Atom('C13'), Atom('genS'), [G.to_wire(s) for s in tree.body])
 
 
+def norm_consts(x):
+    """model tree -> the same tree with every constant text replaced by repr(value) (0x10 -> 16, "a" -> 'a')"""
+    if isinstance(x, list):
+        if len(x) == 3 and x[0] == 'Const' and isinstance(x[0], Atom) and isinstance(x[2], str) and not isinstance(x[2], Atom):
+            if x[1] in ('TRUE', 'FALSE', 'NONE', 'ELLIPSIS'):
+                return x
+            try:
+                return G.const_wire(ast.literal_eval(x[2]))
+            except Exception:  # noqa
+                return x
+        return [norm_consts(y) for y in x]
+    return x
+
+
+def has_atom(x, names):
+    if isinstance(x, list):
+        return any(has_atom(y, names) for y in x)
+    return isinstance(x, Atom) and x in names
+
+
+def compare_parse(cases, res):
+    """Lean pyParse vs ast.parse on the token stream of the original source (eval mode), and the
+    executable form of the theorem parse_gen: pyParse (gen tree) = tree in the model"""
+    lines, meta = [], []
+    for c in cases:
+        if c['mode'] != 'eval':
+            continue
+        try:
+            tree = ast.parse(c['src'], mode='eval')
+            want = G.to_wire(tree.body)
+            toks = G.flat_tokens(c['src'])
+        except (SyntaxError, ValueError, RecursionError, MemoryError):
+            continue
+        if toks is None:
+            res.count('parse:untokenizable')
+            continue
+        lines.append(proto.line(Atom('C13'), Atom('parse'), toks))
+        meta.append(('parse', c, want, toks))
+        lines.append(proto.line(Atom('C13'), Atom('roundtrip'), want))
+        meta.append(('roundtrip', c, want, toks))
+    answers = proto.run_lines(lines)
+    for (what, c, want, toks), ans in zip(meta, answers):
+        if ans == 'unmodelled':
+            res.count(what + ':unmodelled')
+            continue
+        try:
+            model = proto.dec(ans)
+        except Exception:  # noqa
+            model = Atom(ans)
+        if what == 'parse':
+            res.streams['pyParse-vs-ast.parse'] = res.streams.get('pyParse-vs-ast.parse', 0) + 1
+            adjacent_str = any(a[0] == 'STR' and b[0] == 'STR' for a, b in zip(toks, toks[1:]))
+            outside = has_atom(want, ('Unsupported', 'Unmodelled')) or adjacent_str
+            if model == 'none':
+                res.count('parse:model-rejects' + (':outside-grammar' if outside else ''))
+                if not outside:
+                    res.disagreements.append({'stream': 'pyParse-vs-ast.parse', 'case': c, 'model': 'none', 'real': repr(want)[:600]})
+                continue
+            got = norm_consts(model[1]) if isinstance(model, list) and len(model) == 2 else model
+            res.count('parse:ok')
+            if got != want:
+                res.disagreements.append({'stream': 'pyParse-vs-ast.parse', 'case': c, 'model': repr(got)[:900], 'real': repr(want)[:900]})
+        else:
+            if model == 'raises':
+                res.count('roundtrip:gen-raises')
+                continue
+            res.streams['model-roundtrip'] = res.streams.get('model-roundtrip', 0) + 1
+            got = norm_consts(model[1]) if isinstance(model, list) and len(model) == 2 else model
+            if got == want:
+                res.count('roundtrip:identity')
+            else:
+                # the model says parse . gen is not the identity here; the real code must then reject the
+                # tree too (the regenerated text is not Python) -- otherwise the model's reader is too weak
+                res.count('roundtrip:not-identity')
+                if outcome_kind(dict(c, via='raw')) == 'accepted':
+                    res.disagreements.append({'stream': 'model-roundtrip', 'case': c, 'model': repr(got)[:900], 'real': repr(want)[:900]})
+
+
 def compare_model(cases, res):
     """Lean gen vs ASTCodeGenerator on the same trees, as token streams"""
+    compare_parse(cases, res)
     lines, meta = [], []
     for c in cases:
         try:
